@@ -105,6 +105,7 @@ type Report struct {
 	MaxPreempt   int
 	Threads      int
 	Observations []string
+	ObsSets      map[string]int // distinct observation sequences of completed runs -> number of runs
 	ValSamples   []ValSample
 }
 
@@ -321,6 +322,10 @@ func (e *Explorer) merge(r *runResult) {
 		if len(rep.Observations) < 200 {
 			rep.Observations = append(rep.Observations, r.obs...)
 		}
+		if rep.ObsSets == nil {
+			rep.ObsSets = map[string]int{}
+		}
+		rep.ObsSets[strings.Join(r.obs, "|")]++
 		if r.sample != nil {
 			rep.ValSamples = append(rep.ValSamples, *r.sample)
 		}
